@@ -46,6 +46,10 @@ func propManyKeys(c *Case) {
 		c.Class("background-updates")
 	}
 
+	cfg.noopBackend = initial == 0 && cfg.variant != 2 && c.Weighted("NoOp-backend", 5, 1) == 1
+	cfg.directNoOp = cfg.noopBackend
+	cfg.siblingFailover = c.Weighted("sibling-failover", 5, 1) == 1
+
 	cancelCallers := background && c.Bool("cancel-callers-after-return")
 	churn := []int{0, 300, 70000}[c.Weighted("churn-while-in-flight", 16, 3, 1)]
 
